@@ -36,6 +36,9 @@ func FramingOf(k int) specref.Framing {
 // Options for a session.
 type Options struct {
 	ReadTimeout time.Duration
+	// ZeroSerialTimeout: the serial client is built with WithSerialReadTimeout(0) (ReadTimeout is then only the harness's
+	// idea of how long a call may take).
+	ZeroSerialTimeout bool
 	// WriteTimeout of the network clients (default 1 s).
 	WriteTimeout time.Duration
 	Hooks        modbus.ClientHooks
@@ -129,6 +132,9 @@ func NewSession(kind int, o Options) *Session {
 		s.do = c.Do
 	case Serial:
 		opts := []modbus.SerialClientOptionFunc{modbus.WithSerialReadTimeout(o.ReadTimeout)}
+		if o.ZeroSerialTimeout {
+			opts[0] = modbus.WithSerialReadTimeout(0)
+		}
 		if o.Hooks != nil {
 			opts = append(opts, modbus.WithSerialHooks(o.Hooks))
 		}
